@@ -5,6 +5,7 @@ import (
 	"bytes"
 	"encoding/json"
 	"reflect"
+	"strconv"
 	"errors"
 	"fmt"
 	"io"
@@ -105,6 +106,16 @@ func c15baseTypes(num func(t string, vals []string) c15type) []c15type {
 		{"identityref", "identityref { base idb; }", func(r *core.Rng) string { return core.Pick(r, []string{"d1", "d2"}) }, func(s string, _ bool) (string, string) { return "s", s }},
 		{"binary", "binary", func(r *core.Rng) string { return core.Pick(r, []string{"aGVsbG8gd29ybGQ=", "+//+", "/+8=", "AA==", "Zm9v"}) }, func(s string, _ bool) (string, string) { return "s", s }},
 		{"union8", "union { type int8; type int32; }", func(r *core.Rng) string { return core.Pick(r, []string{"100", "-128", "127", "128", "200", "255", "256", "-129", "70000"}) }, func(s string, _ bool) (string, string) { return "n", s }},
+		// a union with members that need their type to convert
+		{"union-e", "union { type enumeration { enum red; enum green { value 7; } } type int32; }", func(r *core.Rng) string { return core.Pick(r, []string{"red", "green", "5", "-3"}) }, func(s string, ids bool) (string, string) {
+			if _, err := strconv.Atoi(s); err == nil {
+				return "n", s
+			}
+			if ids && (s == "red" || s == "green") {
+				return "n", map[string]string{"red": "0", "green": "7"}[s]
+			}
+			return "s", s
+		}},
 		{"union", "union { type int32; type string; }", func(r *core.Rng) string { return core.Pick(r, []string{"5", "-7", "abc", "x y"}) }, func(s string, _ bool) (string, string) {
 			if _, err := fmt.Sscanf(s, "%d", new(int)); err == nil && !strings.Contains(s, " ") {
 				return "n", s
@@ -139,7 +150,7 @@ func c15genKids(r *core.Rng, sc *c15schema, ts []c15type, depth int, n int, mod 
 			name := fmt.Sprintf("f%d", c15seq)
 			sc.types[name] = t
 			sc.mod[name] = mod
-			if r.Chance(20) && t.name != "empty" {
+			if r.Chance(20) && t.name != "empty" && t.name != "union-e" {
 				sc.lists[name] = true
 			}
 			lf := &gen.SNode{Name: name, Kind: "leaf", Type: t.yang}
@@ -238,8 +249,8 @@ func c15allTypesKids(sc *c15schema, ts []c15type) []*gen.SNode {
 	var kids []*gen.SNode
 	for i, t := range ts {
 		for _, list := range []bool{false, true} {
-			if list && t.name == "empty" {
-				continue
+			if list && (t.name == "empty" || t.name == "union-e") {
+				continue // (a union leaf-list is held as one typed list: its members cannot be mixed)
 			}
 			c15seq++
 			name := fmt.Sprintf("a%d", c15seq)
